@@ -554,6 +554,7 @@ def OpOk (S : Sem ρ) : Op ρ → Prop
   | .edit g => Conservative S g
   | .structural g => Harmless S g
   | .run => True
+  | .handRun _ clear => clear = true
 
 theorem stepC_spec [DecidableEq ρ] (S : Sem ρ) (fuel : Nat) (r r' : Root ρ) (op : Op ρ)
     (res : Option (List (Nat × ρ))) (hv : ValidRoot S r) (hop : OpOk S op)
@@ -573,6 +574,18 @@ theorem stepC_spec [DecidableEq ρ] (S : Sem ρ) (fuel : Nat) (r r' : Root ρ) (
     simp [stepC] at h
     obtain ⟨rfl, rfl⟩ := h
     exact ⟨⟨hop r.kids hv.1, by simp⟩, by simp⟩
+  | handRun l clear =>
+    simp only [OpOk] at hop
+    subst hop
+    simp only [stepC] at h
+    cases hr : runKid S KCfg.proposed fuel [] r.kids l with
+    | none => simp [hr] at h
+    | some p =>
+      obtain ⟨k1, v⟩ := p
+      simp only [hr, Option.some.injEq, Prod.mk.injEq] at h
+      obtain ⟨rfl, rfl⟩ := h
+      obtain ⟨_, g2, _⟩ := runKid_spec S fuel [] r.kids l k1 v hv.1 hr
+      exact ⟨⟨g2, by simp⟩, by simp⟩
   | run =>
     simp only [stepC] at h
     by_cases hh : r.hit KCfg.proposed = true
@@ -666,6 +679,7 @@ theorem runOpsC_spec [DecidableEq ρ] (S : Sem ρ) (fuel : Nat) : ∀ (ops : Lis
             · exact i2 x hx
         | edit g => exact i2 x hx
         | structural g => exact i2 x hx
+        | handRun l cl => exact i2 x hx
 
 /-- … and below the root's children it leaves the outputs of the root's children alone -/
 theorem conservative_atPathC (S : Sem ρ) (clear : Bool) (g : Kids ρ → Kids ρ)
